@@ -79,6 +79,9 @@ def gen(rng, knobs):
                      "ids", "authors+time", "tags+time"])) for _ in range(rng.choice([1, 1, 1, 2, 3]))]
                 for f in fs:
                     f.pop("limit", None)
+                if backend == "sql" and rng.random() < 0.04:
+                    # the unrestricted window (LMDB refuses to serve it: a listed finding of C02)
+                    fs[rng.randrange(len(fs))] = {"since": 0}
                 script.append(["send", json.dumps(["REQ", sid] + fs)])
             elif c < 0.5 and opened:
                 script.append(["send", json.dumps(["CLOSE", rng.choice(opened)])])
